@@ -19,8 +19,29 @@ struct UpO(u32, Vec<u8>);
 #[derive(Event, Serialize, Deserialize, Clone)]
 struct UpU(u32, Vec<u8>);
 
+/// further client events (kinds 2, 3, 4): the client side of the protocol has MORE channels than the server side
+#[derive(Event, Serialize, Deserialize, Clone)]
+struct Up<const N: u8>(u32, Vec<u8>);
+
 #[derive(Resource, Default)]
 struct Got(Vec<String>);
+
+fn server_log_n<const N: u8>(mut got: ResMut<Got>, slots: Res<Slots>, mut a: EventReader<FromClient<Up<N>>>) {
+    for e in a.read() {
+        let who = if e.client == SERVER { "L".to_string() } else { slots.0.iter().position(|s| *s == e.client).map(|i| i.to_string()).unwrap_or("R".into()) };
+        got.0.push(format!("{who}:{N}.{}.{}.{}", e.event.0, e.event.1.len(), ok(e.event.0, &e.event.1)));
+    }
+}
+
+fn send_up(app: &mut App, k: &str, seq: u32, data: Vec<u8>) {
+    match k {
+        "0" => { app.world_mut().send_event(UpO(seq, data)); }
+        "1" => { app.world_mut().send_event(UpU(seq, data)); }
+        "2" => { app.world_mut().send_event(Up::<2>(seq, data)); }
+        "3" => { app.world_mut().send_event(Up::<3>(seq, data)); }
+        _ => { app.world_mut().send_event(Up::<4>(seq, data)); }
+    }
+}
 
 fn payload(seq: u32, size: usize) -> Vec<u8> {
     (0..size).map(|i| (i as u32).wrapping_mul(31).wrapping_add(seq) as u8).collect()
@@ -182,11 +203,7 @@ pub fn backendx(args: &[&str]) -> String {
                 }
             } else {
                 let c: usize = f[0][1..].parse().unwrap();
-                if f[1] == "0" {
-                    clients[c].world_mut().send_event(UpO(seq, data));
-                } else {
-                    clients[c].world_mut().send_event(UpU(seq, data));
-                }
+                send_up(&mut clients[c], f[1], seq, data);
             }
         }
     }
@@ -231,8 +248,12 @@ fn build_with(proto: bool, manual: bool) -> App {
     .add_server_event::<DownU>(Channel::Unordered)
     .add_client_event::<UpO>(Channel::Ordered)
     .add_client_event::<UpU>(Channel::Unordered)
+    .add_client_event::<Up<2>>(Channel::Ordered)
+    .add_client_event::<Up<3>>(Channel::Unordered)
+    .add_client_event::<Up<4>>(Channel::Ordered)
     .init_resource::<Got>()
-    .init_resource::<Slots>();
+    .init_resource::<Slots>()
+    .add_systems(Update, (server_log_n::<2>, server_log_n::<3>, server_log_n::<4>));
     app
 }
 
@@ -291,11 +312,7 @@ pub fn backend(args: &[&str]) -> String {
                 }
             } else {
                 let c: usize = f[0][1..].parse().unwrap();
-                if k == "0" {
-                    clients[c].world_mut().send_event(UpO(seq, data));
-                } else {
-                    clients[c].world_mut().send_event(UpU(seq, data));
-                }
+                send_up(&mut clients[c], k, seq, data);
             }
         }
         // one frame of every app, then a second pass so that what was written in this round has been read
